@@ -330,6 +330,8 @@ func (cc *Conn) NetConn() net.Conn {
 
 // DoObserve subscribes for every change with request.
 func (cc *Conn) doObserve(req *pool.Message, observeFunc func(req *pool.Message)) (client.Observation, error) {
+	// NewObservation waits for the first response: when called from a handler, let another loop read it.
+	cc.receivedMessageReader.TryToReplaceLoop()
 	return cc.observationHandler.NewObservation(req, observeFunc)
 }
 
